@@ -79,11 +79,13 @@ Proof.
   unfold resolve at 2 4. rewrite normpath_join2_norm_r. reflexivity.
 Qed.
 
-Lemma translate_designates_same cwd root here wd p :
+(* General form: any environment in which the root resolves to [root] and HERE to [here]. *)
+Lemma translate_designates_same_gen cwd env root here wd p :
   wf_root root = true ->
-  resolve root (translate cwd (mkenv root here) p wd) = resolve (caller_dir root here wd) p.
+  get_stepup_root cwd env = root -> getenv env k_HERE (plib_relpath cwd s_dot root) = here ->
+  resolve root (translate cwd env p wd) = resolve (caller_dir root here wd) p.
 Proof.
-  intros Hroot. pose proof (abs_normalized_inv _ Hroot) as [Hra Hrn].
+  intros Hroot Eroot Ehere. pose proof (abs_normalized_inv _ Hroot) as [Hra Hrn].
   unfold translate. cbn zeta. rewrite !isabs_normpath.
   destruct (isabs p) eqn:Hp; cbn [negb].
   - rewrite resolve_norm_path. rewrite !resolve_abs by exact Hp. reflexivity.
@@ -91,8 +93,8 @@ Proof.
     + rewrite resolve_abs by (rewrite isabs_normpath, isabs_join2, !isabs_normpath, Hwd; apply orb_true_r).
       unfold caller_dir. rewrite (resolve_abs _ wd Hwd).
       rewrite normpath_idem, normpath_join2_norm_r. unfold resolve. reflexivity.
-    + rewrite (get_root_mkenv _ _ _ Hroot).
-      change ([72;69;82;69] : str) with k_HERE. rewrite getenv_here.
+    + rewrite Eroot.
+      change ([72;69;82;69] : str) with k_HERE. change ([46] : str) with s_dot. rewrite Ehere.
       unfold plib_relpath.
       assert (Habs : isabs (join2 root here) = true) by (rewrite isabs_join2, Hra; apply orb_true_r).
       fold (resolve (join2 root here) (normpath (join2 (normpath wd) (normpath p)))).
@@ -100,6 +102,32 @@ Proof.
       * rewrite resolve_norm_path, resolve_join_norms. symmetry. apply caller_resolve.
       * exact Hroot.
       * apply abs_normalized_resolve. exact Habs.
+Qed.
+
+Lemma translate_designates_same cwd root here wd p :
+  wf_root root = true ->
+  resolve root (translate cwd (mkenv root here) p wd) = resolve (caller_dir root here wd) p.
+Proof.
+  intros Hroot. apply translate_designates_same_gen;
+    [exact Hroot|apply get_root_mkenv; exact Hroot|apply getenv_here].
+Qed.
+
+(* Nothing set in the environment (a script run by hand in the project root): the root is the
+   working directory and HERE defaults to ".". *)
+Lemma relpathto_self cwd : wf_root cwd = true -> plib_relpath cwd s_dot cwd = s_dot.
+Proof.
+  intros H. unfold plib_relpath, plib_relpathto. rewrite (abspath_abs_normalized _ _ H).
+  change (abspath cwd s_dot) with (resolve cwd s_dot). rewrite (resolve_self_dot _ H).
+  rewrite Nat.eqb_refl. unfold rel_segments. rewrite strip_common_refl. reflexivity.
+Qed.
+
+Lemma translate_designates_same_noenv cwd wd p :
+  wf_root cwd = true ->
+  resolve cwd (translate cwd [] p wd) = resolve (resolve cwd wd) p.
+Proof.
+  intros H. rewrite (translate_designates_same_gen cwd [] cwd s_dot wd p H (get_root_noenv _ H)).
+  - unfold caller_dir. rewrite (resolve_self_dot _ H). reflexivity.
+  - cbn [getenv]. apply relpathto_self. exact H.
 Qed.
 
 (* The result is always normalised. *)
@@ -167,11 +195,12 @@ Proof.
 Qed.
 
 (* ---------- translate_back ---------- *)
-Lemma translate_back_designates_same cwd root here wd q :
+Lemma translate_back_designates_same_gen cwd env root here wd q :
   wf_root root = true ->
-  resolve (caller_dir root here wd) (translate_back cwd (mkenv root here) q wd) = resolve root q.
+  get_stepup_root cwd env = root -> getenv env k_HERE (plib_relpath cwd s_dot root) = here ->
+  resolve (caller_dir root here wd) (translate_back cwd env q wd) = resolve root q.
 Proof.
-  intros Hroot. pose proof (abs_normalized_inv _ Hroot) as [Hra Hrn].
+  intros Hroot Eroot Ehere. pose proof (abs_normalized_inv _ Hroot) as [Hra Hrn].
   unfold translate_back. cbn zeta. rewrite !isabs_normpath.
   destruct (isabs q) eqn:Hq.
   - rewrite (resolve_abs root q Hq).
@@ -179,8 +208,8 @@ Proof.
     + apply andb_true_iff in Hc as [Hwd _]. unfold caller_dir. rewrite (resolve_abs _ wd Hwd).
       unfold plib_relpath. apply resolve_relpathto; apply abs_normalized_normpath; assumption.
     + rewrite resolve_abs by (rewrite isabs_normpath; exact Hq). apply normpath_idem.
-  - rewrite (get_root_mkenv _ _ _ Hroot).
-    change ([72;69;82;69] : str) with k_HERE. rewrite getenv_here. unfold plib_relpath.
+  - rewrite Eroot.
+    change ([72;69;82;69] : str) with k_HERE. change ([46] : str) with s_dot. rewrite Ehere. unfold plib_relpath.
     set (O := join2 (join2 root here) (normpath wd)). set (D := join2 root (normpath q)).
     assert (HO : isabs O = true) by (unfold O; rewrite !isabs_join2, Hra, !orb_true_r; reflexivity).
     assert (HD : isabs D = true) by (unfold D; rewrite isabs_join2, Hra, orb_true_r; reflexivity).
@@ -190,6 +219,23 @@ Proof.
     assert (ED : resolve root q = abspath cwd D).
     { rewrite (abspath_of_abs _ _ HD). unfold D. rewrite normpath_join2_norm_r. reflexivity. }
     rewrite EO, ED. apply resolve_relpathto_gen; rewrite join2_abs; assumption.
+Qed.
+
+Lemma translate_back_designates_same cwd root here wd q :
+  wf_root root = true ->
+  resolve (caller_dir root here wd) (translate_back cwd (mkenv root here) q wd) = resolve root q.
+Proof.
+  intros Hroot. apply translate_back_designates_same_gen;
+    [exact Hroot|apply get_root_mkenv; exact Hroot|apply getenv_here].
+Qed.
+
+Lemma translate_back_designates_same_noenv cwd wd q :
+  wf_root cwd = true ->
+  resolve (resolve cwd wd) (translate_back cwd [] q wd) = resolve cwd q.
+Proof.
+  intros H. rewrite <- (translate_back_designates_same_gen cwd [] cwd s_dot wd q H (get_root_noenv _ H)).
+  - unfold caller_dir. rewrite (resolve_self_dot _ H). reflexivity.
+  - cbn [getenv]. apply relpathto_self. exact H.
 Qed.
 
 (* ---------- fixpoint ---------- *)
@@ -453,4 +499,101 @@ Proof.
   assert (H2 : starts_with (removelast (47 :: p')) [46;47] = false).
   { destruct p'; reflexivity. }
   destruct (ends_with (47 :: p') [47]); cbn zeta; rewrite ?H1, ?H2; cbn [fst]; discriminate.
+Qed.
+
+(* ---------- affixes do not change the designated file ---------- *)
+Lemma starts_with_slash_isabs x : starts_with x s_slash = isabs x.
+Proof.
+  destruct x as [|c x]; [reflexivity|]. unfold starts_with, s_slash. cbn [is_prefix isabs].
+  rewrite andb_true_r. apply N.eqb_sym.
+Qed.
+
+Lemma nslash_snoc_slash z : z <> [] -> ends_with z [47] = false -> nslash (z ++ [47]) = nslash z.
+Proof.
+  intros Hz He. destruct z as [|a [|b [|c z']]]; [congruence| | |reflexivity].
+  - unfold ends_with in He. cbn [rev app is_prefix] in He. rewrite andb_true_r, N.eqb_sym in He.
+    unfold nslash. cbn [app isabs tl]. rewrite He. reflexivity.
+  - unfold ends_with in He. cbn [rev app is_prefix] in He. rewrite andb_true_r, N.eqb_sym in He.
+    unfold nslash. cbn [app isabs tl]. rewrite He. reflexivity.
+Qed.
+
+Lemma normpath_snoc_slash z : z <> [] -> ends_with z [47] = false -> normpath (z ++ [47]) = normpath z.
+Proof.
+  intros Hz He. apply normpath_ext; [apply nslash_snoc_slash; assumption|].
+  unfold norm_comps. rewrite (isabs_app _ _ Hz), comps_app_slash, comps_nil, app_nil_r. reflexivity.
+Qed.
+
+Lemma resolve_snoc_slash d x : x <> [] -> ends_with x [47] = false -> resolve d (x ++ [47]) = resolve d x.
+Proof.
+  intros Hx He. unfold resolve, join2. rewrite (isabs_app _ _ Hx).
+  destruct (isabs x); [apply normpath_snoc_slash; assumption|].
+  destruct d as [|c d]; [apply normpath_snoc_slash; assumption|].
+  destruct (ends_with (c :: d) [47]).
+  - rewrite app_assoc. apply normpath_snoc_slash; [destruct x; [congruence|]; destruct (c :: d); discriminate|].
+    rewrite ends_with_app_nonempty by exact Hx. exact He.
+  - replace ((c :: d) ++ 47 :: x ++ [47]) with (((c :: d) ++ 47 :: x) ++ [47])
+      by (rewrite <- app_assoc; reflexivity).
+    apply normpath_snoc_slash; [discriminate|].
+    replace ((c :: d) ++ 47 :: x) with (((c :: d) ++ [47]) ++ x) by (rewrite <- app_assoc; reflexivity).
+    rewrite ends_with_app_nonempty by exact Hx. exact He.
+Qed.
+
+Lemma resolve_dotslash d x : isabs x = false -> resolve d (s_dotslash ++ x) = resolve d x.
+Proof.
+  intros Hx. rewrite <- (resolve_dot_join d x). f_equal. unfold join2. rewrite Hx. reflexivity.
+Qed.
+
+Lemma apply_affixes_same_file d q l t r :
+  apply_affixes q l t = Ok r -> q <> [] -> resolve d r = resolve d q.
+Proof.
+  intros H Hq. destruct (apply_affixes_ok_inv _ _ _ _ H) as [Hl [Ht ->]].
+  assert (Hlq : resolve d (l ++ q) = resolve d q).
+  { destruct Hl as [-> | [-> [Hs _]]]; [reflexivity|]. apply resolve_dotslash.
+    rewrite <- starts_with_slash_isabs. exact Hs. }
+  destruct Ht as [-> | [-> He]].
+  - rewrite app_nil_r. exact Hlq.
+  - rewrite app_assoc. unfold s_slash in *. rewrite resolve_snoc_slash; [exact Hlq| |exact He].
+    destruct l; destruct q; try discriminate; congruence.
+Qed.
+
+Lemma keep_translate_designates_same cwd root here p r :
+  wf_root root = true -> keep_translate cwd (mkenv root here) p = Ok r ->
+  resolve root r = resolve (caller_dir root here s_dot) p.
+Proof.
+  intros Hroot H. unfold keep_translate, keep_affixes in H.
+  destruct (get_affixes p) as [l t]. rewrite (apply_affixes_same_file root _ _ _ _ H).
+  - unfold api_translate. change translate_default_workdir with s_dot. apply translate_designates_same. exact Hroot.
+  - unfold api_translate. rewrite <- (normalized_eq _ (translate_normalized cwd root here translate_default_workdir p Hroot)).
+    apply normpath_nonempty.
+Qed.
+
+Lemma keep_normpath_same_file d p r : keep_normpath p = Ok r -> resolve d r = resolve d p.
+Proof.
+  intros H. unfold keep_normpath, keep_affixes in H. destruct (get_affixes p) as [l t].
+  rewrite (apply_affixes_same_file d _ _ _ _ H); [apply resolve_norm_path|apply normpath_nonempty].
+Qed.
+
+(* ---------- declaration time versus execution time ---------- *)
+(* A step running in stored working directory wd1 declares a sub-step with workdir wd2 and path p. *)
+Lemma nested_step_translate cwd root wd1 wd2 p :
+  wf_root root = true ->
+  resolve root (translate cwd (step_env root wd1) p wd2) = resolve (resolve (step_cwd root wd1) wd2) p.
+Proof.
+  intros Hroot. unfold step_env. rewrite (translate_designates_same _ _ _ _ _ Hroot).
+  unfold caller_dir, step_HERE. destruct (exec_env_resolves root [] wd1 Hroot) as [_ H]. rewrite H. reflexivity.
+Qed.
+
+(* api.step records tr_workdir = translate(workdir) and the paths translate(p, workdir); the executor
+   later launches the command in root/tr_workdir.  A relative path in the command then designates
+   the file that was recorded for it. *)
+Lemma declared_paths_match_execution cwd root here wd p :
+  wf_root root = true ->
+  resolve root (translate cwd (mkenv root here) p wd)
+  = resolve (step_cwd root (translate cwd (mkenv root here) wd translate_default_workdir)) p.
+Proof.
+  intros Hroot. rewrite (translate_designates_same _ _ _ _ _ Hroot). f_equal.
+  unfold step_cwd. change translate_default_workdir with s_dot.
+  rewrite (translate_designates_same _ _ _ _ _ Hroot).
+  unfold caller_dir. rewrite resolve_self_dot; [reflexivity|].
+  apply abs_normalized_resolve. apply abs_normalized_inv in Hroot as [Hra _]. exact Hra.
 Qed.
